@@ -20,6 +20,35 @@ static const uint32_t verif_layer_tag_obj = VERIF_TAG_IDENTITY;
 static const uint32_t verif_layer_tag_obj = VERIF_TAG_FIELD;
 #endif
 
+#if THIN == 8
+/* ---- constant backend: LE32(C04F1EAB) LE32(AB010001) M scalars (the value) LE32(C04F1E70) LE32(CB010001) */
+#define GOLDEN_TAG 0xAB010001u
+static const uint32_t verif_layer_tag_obj = VERIF_TAG_CONSTANT;
+typedef struct { OUT_VEC_T m_value; } CONST_OWN_T;
+static CONST_OWN_T verif_const_own_ctor(OUT_VEC_T v) { CONST_OWN_T r; r.m_value = v; return r; }
+#define VAL_BYTES (DIMS_OUT * sizeof(OUT_SCALAR_T))
+#define OUTVEC_EQ_K(k, v, fs, off) __CPROVER_equal((v).m_data[k], *(const OUT_SCALAR_T *)((fs)->buf + (off) + (k) * sizeof(OUT_SCALAR_T)))
+#define CONTRACT_read_binary_outvec(fs) RB_COMMON(fs, VAL_BYTES) \
+  __CPROVER_ensures(verif_thrown == 0 ==> VERIF_ALL(DIMS_OUT, OUTVEC_EQ_K, __CPROVER_return_value, fs, (fs)->pos - VAL_BYTES))
+#define CONST_IMAGE_OK(fs, p0) \
+  ((fs)->len - (p0) >= 16 + VAL_BYTES && LE32_AT((fs)->buf, (p0)) == GOLDEN_MAGIC_HEADER && LE32_AT((fs)->buf, (p0) + 4) == GOLDEN_TAG && \
+   LE32_AT((fs)->buf, (p0) + 8 + VAL_BYTES) == GOLDEN_MAGIC_FOOTER && LE32_AT((fs)->buf, (p0) + 12 + VAL_BYTES) == (uint32_t)(GOLDEN_TAG + GOLDEN_FOOTER_OFFSET))
+#define CONTRACT_const_read_binary(fs) \
+  RB_PRE(fs) \
+  __CPROVER_ensures((verif_thrown == 0) == CONST_IMAGE_OK(fs, __CPROVER_old((fs)->pos))) \
+  __CPROVER_ensures(verif_thrown == 0 ==> ((fs)->pos == __CPROVER_old((fs)->pos) + 16 + VAL_BYTES && \
+                                           VERIF_ALL(DIMS_OUT, OUTVEC_EQ_K, __CPROVER_return_value.m_value, fs, __CPROVER_old((fs)->pos) + 8))) \
+  RB_FRAME(fs)
+#define CONTRACT_const_write_binary(fs, o) \
+  WB_PRE(fs, 16 + VAL_BYTES) \
+  __CPROVER_requires(verif_l0 == (fs)->len) \
+  __CPROVER_ensures((fs)->len == verif_l0 + 16 + VAL_BYTES) \
+  __CPROVER_ensures(LE32_AT((fs)->buf, verif_l0) == GOLDEN_MAGIC_HEADER && LE32_AT((fs)->buf, verif_l0 + 4) == GOLDEN_TAG) \
+  __CPROVER_ensures(VERIF_ALL(DIMS_OUT, OUTVEC_EQ_K, (o)->m_value, fs, verif_l0 + 8)) \
+  __CPROVER_ensures(LE32_AT((fs)->buf, (fs)->len - 8) == GOLDEN_MAGIC_FOOTER && LE32_AT((fs)->buf, (fs)->len - 4) == (uint32_t)(GOLDEN_TAG + GOLDEN_FOOTER_OFFSET)) \
+  __CPROVER_assigns((fs)->len, __CPROVER_object_from((fs)->buf + (fs)->len))
+#endif
+
 /* ---- pass-through */
 #define B_IMAGE_PRESENT(fs, p0) (verif_b_image_ok && (fs)->len - (p0) >= verif_b_image_len)
 #define CONTRACT_thin_read_binary(fs) \
